@@ -20,7 +20,7 @@ TOL_AMOUNT = Fraction(1, 10**18)  # token amounts (property family tolerance, DE
 TOL_FIELD = Fraction(1, 10**25)  # relative, health-factor fields of the action (35-digit Decimal quotients)
 CLOSE_HF = Fraction(95, 100)
 PHASES = ["initialize", "before_bar", "trigger", "on_bar", "after_bar", "notify"]
-HF_CLASSES = ("safe", "half", "full", "deep", "edge1", "edge95")
+HF_CLASSES = ("safe", "half", "full", "deep", "edge1", "edge95", "half", "full", "deep", "abyss")
 
 
 # --------------------------------------------------------------------------------------------------- generation
@@ -48,6 +48,16 @@ def generate(seed: int, tier: str = "quick") -> dict:
         world["assets"][t] = str(Decimal(world["assets"][t]) + amt)
         program.append({"bar": rp.choice([-1, 0]), "phase": "on_bar", "op": "aave.supply", "m": "aave0", "a": {"token": t, "amount": str(amt), "collateral": True}})
         st.sup[t] = [F(amt) / ref.Is(t, 0), True]
+    if rest and R.sub(seed, "dust").random() < 0.2:
+        # a dust collateral next to the real ones: once those are seized the health factor is tiny but positive, collateral
+        # is left and debts may still be unvisited - the liquidation must go on
+        t = R.sub(seed, "dust_token").choice(rest)
+        amt = Decimal(A.dstr(float(unit[t]) * 10.0 ** -R.sub(seed, "dust_size").choice([3, 5, 7]), 18))
+        if amt > 0:
+            world["assets"][t] = str(Decimal(world["assets"][t]) + amt)
+            program.append({"bar": 0, "phase": "on_bar", "op": "aave.supply", "m": "aave0", "a": {"token": t, "amount": str(amt), "collateral": True}})
+            st.sup[t] = [F(amt) / ref.Is(t, 0), True]
+            rest = [x for x in rest if x != t]
     if rp.random() < 0.3 and rest:  # a non-collateral supply that must never be seized
         t = rp.choice(rest)
         amt = Decimal(A.dstr(float(unit[t]) * rp.uniform(0.5, 10), 6))
@@ -76,7 +86,7 @@ def generate(seed: int, tier: str = "quick") -> dict:
         cls = rf.choice(HF_CLASSES)
         target = {
             "safe": rf.uniform(1.02, 1.3), "half": rf.uniform(0.955, 0.995), "full": rf.uniform(0.7, 0.945),
-            "deep": rf.uniform(0.15, 0.6), "edge1": 1 + rf.choice([-1, 1]) * 10.0 ** -rf.choice([3, 6]),
+            "deep": rf.uniform(0.15, 0.6), "abyss": 10.0 ** -rf.choice([4, 6.3, 7, 9]), "edge1": 1 + rf.choice([-1, 1]) * 10.0 ** -rf.choice([3, 6]),
             "edge95": 0.95 + rf.choice([-1, 1]) * 10.0 ** -rf.choice([3, 6]),
         }[cls]
         T = F(A.dstr(target, 9))
@@ -103,7 +113,7 @@ def generate(seed: int, tier: str = "quick") -> dict:
             mult = (need - (D - Dv)) / Dv
             if mult <= 0:
                 continue
-            if kind == "index_jump" and mult >= 1:
+            if kind == "index_jump" and 1 <= mult < 1000:
                 for t in only_d:
                     s = mw["variable_borrow_index"][t]
                     for i in range(raw, len(s)):
